@@ -48,6 +48,8 @@ finally:
 print(json.dumps(res, indent=1))
 if meta is not None:
     prop, _, needs = meta.partition("|")
+    if not suite and os.path.exists(os.path.join(sd, "meta.json")):
+        res["suite"] = json.load(open(os.path.join(sd, "meta.json")))["confirmed"].get("baseline_suite_with_patch")  # keep the recorded result
     m = {"breaks_property": prop.strip(), "needs_to_manifest": needs.strip(), "written_by": "independent sub-agent that saw only the property text and a scratch worktree of /repo",
          "confirmed": {"repo_head": res["head"], "demo_without_patch_exit": res.get("demo_without"), "demo_with_patch_exit": res.get("demo_with"), "baseline_suite_with_patch": res.get("suite"),
                        "how": "tools/seed_eval.py: scratch worktree of /repo HEAD, git apply patch.diff, demo.py with PYTHONPATH=<worktree>/src before and after, full pytest suite, ./check <ID> --tier %s with VERIF_REPO_SRC=<worktree>/src" % tier},
